@@ -75,7 +75,7 @@ func (c *chanConn) WriteBatch(msgs underlayconn.Messages, _ int) (int, error) {
 func (c *chanConn) Close() error { c.once.Do(func() { close(c.closed) }); return nil }
 
 func TestRouterRace(t *testing.T) {
-	for iter := 0; iter < 30; iter++ {
+	for iter := 0; iter < 40; iter++ {
 		batch := 1 + iter%3
 		cfg := rtr.Cfg{IA: rtr.LocalIA, Key: rtr.KeyA, ReuseLocal: true, NoStart: true, PortStart: 1024, PortEnd: 65535,
 			RunConfig: router.RunConfig{NumProcessors: 2, NumSlowPathProcessors: 1, BatchSize: batch},
@@ -94,7 +94,7 @@ func TestRouterRace(t *testing.T) {
 		now := uint32(time.Now().Unix())
 		cases := rtr.Cases(&cfg, cfg.Key, now-100, 63)
 		ext := netip.MustParseAddrPort(rtr.RemoteAddr(3))
-		var fwd, bad, tosib []byte
+		var fwd, bad, tosib, badScmpErr []byte
 		for i := range cases {
 			c := &cases[i]
 			if c.In == rtr.FromExt(3) && !c.Xover && !c.Shape.Peering {
@@ -105,6 +105,11 @@ func TestRouterRace(t *testing.T) {
 					p := c.Pkt.Clone()
 					p.HopRef(c.V[0].Hop).Mac[2] ^= 4
 					bad, _ = p.Serialize()
+					// an SCMP *error* with a bad hop MAC: the slow path declines to answer (error branch)
+					q := c.Pkt.Clone()
+					q.HopRef(c.V[0].Hop).Mac[2] ^= 4
+					q.SetSCMP(1, 0, make([]byte, 20))
+					badScmpErr, _ = q.Serialize()
 				case c.EgressIf == 12 && tosib == nil:
 					tosib = b
 				}
@@ -116,7 +121,7 @@ func TestRouterRace(t *testing.T) {
 		time.Sleep(20 * time.Millisecond)
 		in := conns[ext.String()]
 		for k := 0; k < 40; k++ {
-			for _, b := range [][]byte{fwd, bad, tosib, {1, 2, 3}} {
+			for _, b := range [][]byte{fwd, bad, badScmpErr, tosib, badScmpErr, {1, 2, 3}} {
 				select {
 				case in.rx <- pkt{b, ext}:
 				default:
